@@ -363,6 +363,23 @@ func listInputs(r *gen.RNG, emit func(string, []byte)) {
 			emit("foreign-props", of)
 		}
 	}
+	// several large frames (4 MiB and more), fully delivered, whose content is
+	// malformed, followed by a valid large one: whatever a decoder reserves
+	// for large bodies must be given back on every path
+	if r.Chance(1, 150) {
+		for k := 0; k < 6; k++ {
+			n := 4<<20 + r.Intn(1<<16)
+			b := make([]byte, 0, n+8)
+			b = append(b, 0x30)
+			b = ref.AppendVBI(b, uint32(n))
+			body := make([]byte, n)
+			copy(body, []byte{0, 1, 't', 3, 0x7e, 0, 0}) // topic "t", property length 3, undefined identifier
+			if k == 5 {
+				copy(body, []byte{0, 1, 't', 0}) // the last one is a valid PUBLISH
+			}
+			emit("large-malformed", append(b, body...))
+		}
+	}
 	// headers declaring much more than follows (little or nothing behind them)
 	if r.Chance(1, 4) {
 		decls := []uint32{1 << 16, 1 << 20}
